@@ -5,7 +5,7 @@
 From Coq Require Import List NArith ZArith Bool Ascii String.
 From Authlib Require Import Base.Bytes Base.Base64 Base.BigEndian Base.PyVal Base.Url Base.Percent Base.Utf8 Base.Form.
 From Authlib Require Proofs.UrlP.
-From Authlib Require Import Extract.DispatchAR Extract.DispatchO1 Extract.DispatchFF Extract.DispatchID Extract.DispatchCS Extract.DispatchJW Extract.DispatchKP Extract.DispatchJE.
+From Authlib Require Import Extract.DispatchAR Extract.DispatchO1 Extract.DispatchFF Extract.DispatchID Extract.DispatchCS Extract.DispatchJW Extract.DispatchKP Extract.DispatchJE Extract.DispatchRB.
 From Authlib Require Import Model.JWK Model.Claims Spec.ClaimsSpec Model.Resource Model.Scope Model.ClientAuth Model.Metadata Spec.MetadataSpec Model.Registration Model.Wire Model.OAuth1Sig Model.Authorize Model.CodeFlow Model.TokenLife.
 Import ListNotations.
 Open Scope string_scope.
@@ -434,6 +434,9 @@ Definition dispatch (fn : string) (a : pv) : pv :=
   | None =>
   match dispatch_jwe oracle fn a with
   | Some r => r
+  | None =>
+  match dispatch_robust oracle fn a with
+  | Some r => r
   | None => err ("unknown function " ++ fn)
-  end end end end end end end end end end end end end end end end end end end end end.
+  end end end end end end end end end end end end end end end end end end end end end end.
 End D.
